@@ -1,6 +1,6 @@
 package main
 
-// Store templates for Part 1.  Every store has 8..14 blobs; together the templates cover
+// Store templates for Part 1.  Every store has 8..14 blobs (decoys: 15); together the templates cover
 // share claims (transitive / not, expired / far expiry / no expiry, deleted, deleted then
 // undeleted, deleted twice, foreign authType, search share), files and nested bytes trees,
 // directories with plain and split (mergeSets) static sets, permanodes, and decoys that
@@ -147,7 +147,11 @@ func buildWorld(id, template string, variant int, rng *rand.Rand) *world {
 		panic("unknown template " + template)
 	}
 	w.finish()
-	if n := len(w.blobs); n < 8 || n > 14 {
+	max := 14
+	if template == "decoys" {
+		max = 15
+	}
+	if n := len(w.blobs); n < 8 || n > max {
 		panic(fmt.Sprintf("store %s has %d blobs", id, n))
 	}
 	return w
@@ -292,7 +296,15 @@ func (g *gen) decoys() {
 		"nonce": string(entropy(g.rng, "j", 8))}), "decoy-json-without-camliType"))
 	ms = append(ms, g.bytesBlob("decoy-bytes-unrelated-key", nil, map[string]any{"note": cs, "x": map[string]any{"blobRef": cs}}))
 	ms = append(ms, g.file("decoy-file-name", cs, nil, nil, map[string]any{"verifNonce": string(entropy(g.rng, "f", 8))}))
-	ms = append(ms, w.add(rawJSON(map[string]any{"camliVersion": 1, "camliType": "static-set", "members": []string{}, "comment": cs}), "decoy-static-set-comment"))
+	emptySet := w.add(rawJSON(map[string]any{"camliVersion": 1, "camliType": "static-set", "members": []string{}, "comment": cs}), "decoy-static-set-comment")
+	ms = append(ms, emptySet)
+	// a directory names the chunk in its fileName and in an unknown key; its only link is "entries"
+	ms = append(ms, w.add(rawJSON(map[string]any{"camliVersion": 1, "camliType": "directory", "fileName": cs, "entries": emptySet.String(), "xattrNote": cs,
+		"verifNonce": string(entropy(g.rng, "d", 8))}), "decoy-directory-fileName"))
+	// a share claim used as an intermediate via blob: its "target" authorises a chain that STARTS at it,
+	// it is not a schema link through which another share's chain continues
+	ms = append(ms, g.share("decoy-share-claim-as-via", c, g.rng.Intn(2) == 0, expNone))
+	w.features["decoy-share-claim-as-via"] = true
 	ms = append(ms, w.add(rawJSON(map[string]any{"camliVersion": 1, "camliType": "symlink", "fileName": "ln", "symlinkTarget": cs}), "decoy-symlink-target"))
 	pn := w.add(g.s.Permanode("c17-"+w.id), "permanode")
 	w.features["permanode"] = true
